@@ -1147,4 +1147,9 @@ def mon_connection_loss(tr, pid='C11', affected=('c', 's'), settled_mark='settle
         for key in ('sender_done', 'receiver_done', 'keepalive_done'):
             if key in fin and not fin[key]:
                 out.append(viol('task_still_running', '%s:task_running:%s' % (pid, key), side=side, fault=fkind))
+        # an endpoint that was closed explicitly keeps no task of its own alive, whichever attribute holds it
+        if any(e['ev'] == 'close_returned' and e['side'] == side for e in log):
+            for attr, val in sorted((fin.get('state') or {}).items()):
+                if val == ['Task', 'pending']:
+                    out.append(viol('task_still_running', '%s:task_running_after_close:%s' % (pid, attr), side=side, fault=fkind))
     return out
